@@ -58,6 +58,24 @@ fn listing(c: &CommitNode) -> Vec<String> {
         .collect()
 }
 
+/// Two node objects with one identity root but differently typed interiors (see known_findings.json, C01):
+/// everything that shares by identity root -- the bit encoder, Forest::from_program, string_serialize -- treats
+/// them as one node.
+fn commit_has_ihr_twins(c: &CommitNode) -> bool {
+    use simplicity::dag::InternalSharing;
+    let mut seen: std::collections::HashMap<[u8; 32], Option<[u8; 32]>> = std::collections::HashMap::new();
+    for d in c.post_order_iter::<InternalSharing>() {
+        if let Some(i) = d.node.ihr() {
+            let a = d.node.amr().map(|x| x.to_byte_array());
+            let e = seen.entry(i.to_byte_array()).or_insert(a);
+            if *e != a {
+                return true;
+            }
+        }
+    }
+    false
+}
+
 fn compare_commit(what: &str, a: &CommitNode, b: &CommitNode) -> Result<(), Viol> {
     if a.cmr() != b.cmr() {
         return Err(("roundtrip-cmr-differs".into(), format!("{}: CMR {} became {}", what, a.cmr(), b.cmr())));
@@ -76,6 +94,13 @@ fn compare_commit(what: &str, a: &CommitNode, b: &CommitNode) -> Result<(), Viol
 
 /// render + parse of a forest; compares every root.
 fn roundtrip<J: Jet>(forest: &Forest, case: &Case) -> Result<(), Viol> {
+    match roundtrip_inner::<J>(forest, case) {
+        Err((sig, d)) if forest.roots().values().any(|r| commit_has_ihr_twins(&r.to_commit_node())) => Err(("roundtrip:equal-ihr-twins".into(), format!("[{}] {}", sig, d))),
+        r => r,
+    }
+}
+
+fn roundtrip_inner<J: Jet>(forest: &Forest, case: &Case) -> Result<(), Viol> {
     let text = guard(|| forest.string_serialize()).map_err(|pn| ("panic:string_serialize".to_string(), pn))?;
     let again = match guard(|| Forest::parse::<J>(&text)) {
         Ok(Ok(f)) => f,
@@ -204,6 +229,9 @@ fn program_case(rng: &mut Rng, case: &mut Case) -> Outcome {
     match back {
         Some(b) => {
             if let Err((s, d)) = compare_commit("from_program", &c, &b) {
+                if commit_has_ihr_twins(&c) {
+                    return violated("roundtrip:equal-ihr-twins", format!("[from-program:{}] {} ; {}", s, d, case.desc));
+                }
                 return violated(format!("from-program:{}", s), format!("{} ; {}", d, case.desc));
             }
         }
